@@ -18,7 +18,7 @@ from .sandbox import parse_submission
 RAW = {
     "r42": "42", "rneg7": "-7", "r007": "007", "r0": "0", "ryes": "yes", "rtrue": "true", "rno": "no", "rfalse": "false",
     "rYes": "Yes", "rTrue": "True", "rFALSE": "FALSE", "rempty": "", "rhello": "hello", "rspaces": "hello big world",
-    "rjson": '{"a": 1}', "r4x": "4x", "rfloat": "1.5", "rmerged": "merged", "rdebug": "debug",
+    "rjson": '{"a": 1}', "rinfo": "info", "r4x": "4x", "rfloat": "1.5", "rmerged": "merged", "rdebug": "debug",
 }
 WF = "from gwf import Workflow\ngwf = Workflow()\ngwf.target('one', inputs=[], outputs=['o1']) << 'echo one'\n"
 
